@@ -229,12 +229,15 @@ ASSUME JsonSerialize(IOEnv.VERDICT_OUT, [fixed |-> SetToSeq(UnsafePairs({maxn_ru
     nrep = 0
     for (n1d, p) in acc_conc[: (4 if chk.quick else 25)]:
         for o in (0, 2):
-            r = sched.replay_tsc(n1d, p, o, Q)
-            nrep += r['schedules']
-            if r['lost']:
-                chk.violation(f'schedule-lost-update-{rel(n1d, p)}',
-                              f'adversarial schedule on _tsc_parallel source loses a deposit: n1d={n1d} np={p} offset={o}/4 cell: {r["detail"]}',
-                              dict(kind='schedule', n1d=n1d, np=p, o=o, detail=r['detail']))
+            for drop in ((), (1,), (p - 2,), (1, 2, 3)):
+                if drop and (max(drop) >= p or (chk.quick and o != 0)):
+                    continue
+                r = sched.replay_tsc(n1d, p, o, Q, drop=drop)
+                nrep += r['schedules']
+                if r['lost']:
+                    chk.violation(f'schedule-lost-update-{rel(n1d, p)}' + ('-empty-stripes' if drop else ''),
+                                  f'adversarial schedule on _tsc_parallel source loses a deposit: n1d={n1d} np={p} offset={o}/4 cell, stripes without particles {list(drop)}: {r["detail"]}',
+                                  dict(kind='schedule', n1d=n1d, np=p, o=o, drop=list(drop), detail=r['detail']))
     chk.part('schedule_replay', schedules=nrep)
     chk.add_cases(nrep)
     # ---- compiled threads vs serial, exact on dyadic lattice
@@ -253,6 +256,11 @@ ASSUME JsonSerialize(IOEnv.VERDICT_OUT, [fixed |-> SetToSeq(UnsafePairs({maxn_ru
         pos[:, 0] = (np.floor(m[:, 0]) / Q) * cell
         pos[:, 1:] = rng.integers(0, 3 * Q, (N, 2)) * (cell / Q)     # cubic grid: n1d/box = 1/cell is dyadic on every axis
         w = rng.integers(1, 4, N).astype(np.float32)
+        # leave stripe 1 without particles (the pass structure must not depend on which stripes are occupied)
+        if len(cases) and (n1d, p) == cases[0] and p >= 4:
+            st1 = np.minimum(np.floor(pos[:, 0] * p / box).astype(int), p - 1)
+            keepm = st1 != 1
+            pos, w = pos[keepm].copy(), w[keepm].copy()
         for o in (0.0, cell / 2):
             with warnings.catch_warnings():
                 warnings.simplefilter('ignore')
@@ -279,7 +287,7 @@ def replay(chk, path):
     print('replay payload kind:', p.get('kind'))
     if p.get('kind') == 'schedule':
         import sched
-        r = sched.replay_tsc(p['n1d'], p['np'], p['o'], Q)
+        r = sched.replay_tsc(p['n1d'], p['np'], p['o'], Q, drop=tuple(p.get('drop', ())))
         if r['lost']:
             chk.violation(d['key'], r['detail'], p)
     elif p.get('kind') == 'decision':
